@@ -239,7 +239,7 @@ func (x *Exec) verifyBody(fn *ssa.Function, c *Contract, res *FuncResult) {
 			defer func() {
 				if r := recover(); r != nil {
 					if ce, ok := r.(contractError); ok {
-						if e.Tag != "" && (strings.Contains(string(ce), "was executed before this point") || strings.Contains(string(ce), "unknown identifier")) {
+						if strings.Contains(string(ce), "was executed before this point") || strings.Contains(string(ce), "unknown identifier") {
 							// the clause is about a call the function no longer makes: a failing
 							// obligation (the others are still generated), not a malformed contract
 							f = "false"
@@ -294,7 +294,11 @@ func (x *Exec) verifyBody(fn *ssa.Function, c *Contract, res *FuncResult) {
 // listed callees — a syntactic obligation over the SSA ("no other call touches
 // the protected resource").
 func (x *Exec) allowedCallsObligation(fn *ssa.Function, c *Contract) {
-	ac := c.AllowedCalls
+	x.callsObligation(fn, c, c.AllowedCalls, false)
+	x.callsObligation(fn, c, c.ForbiddenCalls, true)
+}
+
+func (x *Exec) callsObligation(fn *ssa.Function, c *Contract, ac *AllowedCalls, forbid bool) {
 	if ac == nil {
 		return
 	}
@@ -338,7 +342,7 @@ func (x *Exec) allowedCallsObligation(fn *ssa.Function, c *Contract) {
 						name = "dynamic"
 					}
 				}
-				if !allowed[name] {
+				if allowed[name] == forbid {
 					offenders = append(offenders, name+" ("+x.prog.pos(in.Pos())+")")
 				}
 			}
@@ -348,14 +352,21 @@ func (x *Exec) allowedCallsObligation(fn *ssa.Function, c *Contract) {
 		}
 	}
 	visit(fn)
-	name := fmt.Sprintf("%s#allowed-calls", funcKey(fn))
+	kind := "allowed-calls"
+	if forbid {
+		kind = "forbidden-calls"
+	}
+	name := fmt.Sprintf("%s#%s", funcKey(fn), kind)
 	if ac.Tag != "" {
-		name = fmt.Sprintf("%s#%s.allowed-calls", funcKey(fn), ac.Tag)
+		name = fmt.Sprintf("%s#%s.%s", funcKey(fn), ac.Tag, kind)
 	}
 	formula, src := "true", "the body calls only: "+strings.Join(ac.Names, ", ")
+	if forbid {
+		src = "the body calls none of: " + strings.Join(ac.Names, ", ")
+	}
 	if len(offenders) > 0 {
 		formula = "false"
-		src += "; other calls: " + strings.Join(offenders, "; ")
+		src += "; offending calls: " + strings.Join(offenders, "; ")
 	}
 	x.addObl(&Obligation{Name: name, Kind: "inventory", Tag: ac.Tag, Func: funcKey(fn), Pos: fmt.Sprintf("%s:%d", shortPath(c.File), ac.Line), Guard: "true", Formula: formula, Src: src})
 }
